@@ -36,7 +36,8 @@ PRIMES = [2, 3, 5, 7, 11, 13, 17, 19, 23, 29, 31, 37, 41, 43, 47, 53, 59, 61, 67
 RATE_PRIME = {"kf": 101, "kb": 103, "c0": 107}
 # constant / call forms: Fraction primes with n*e, e*n, numpy integers; sympy symbols with int and
 # sympy.Integer multipliers; "mix": odd bases Fraction primes, even bases symbols (products mix both)
-MODES = ("frac", "sym", "frac-rmul", "sym-int", "mix", "frac-np")
+# "srat": the exact rationals are sympy Integers/Rationals instead of fractions.Fraction
+MODES = ("frac", "sym", "frac-rmul", "sym-int", "mix", "frac-np", "srat")
 BIG = 10 ** 6
 LOOK_FAILED = object()
 NREGS_OBS = 4  # registers listed in every observation (= NRegs of EqArithTrace.cfg)
@@ -204,6 +205,9 @@ class Machine(object):
             return sympy.Symbol(name, positive=True)
         if name not in self.names:
             self.names[name] = prime or PRIMES[len([n for n in self.names if n not in RATE_PRIME])]
+        if self.mode == "srat":
+            import sympy
+            return sympy.Integer(self.names[name])
         return Fraction(self.names[name])
 
     def net(self, r, s):
@@ -429,7 +433,8 @@ def _spec_to_code(ctx, cfg, n_pick, actions, modes):
 
 
 # ------------------------------------------------------------------ seeded generator (code -> spec)
-SPECIES = ["A", "B", "C", "D", "E", "F"]
+# keys that do not look like plain names (charges, phases, a space, a digit first): keys are opaque
+SPECIES = ["A", "B", "H+", "OH-", "e-", "Fe+3", "H2O(l)", "2x", "a b"]
 
 
 def _rand_eq(rng):
@@ -445,7 +450,12 @@ def _rand_eq(rng):
             else:  # on both sides
                 reac[k] = rng.randint(1, 3)
                 prod[k] = rng.randint(1, 3)
-        if any(prod.get(k, 0) != reac.get(k, 0) for k in ks) and reac and prod:
+        if rng.random() < 0.1 and len(ks) > 1:   # a one-sided equilibrium (everything on one side)
+            side = rng.choice([reac, prod])
+            other = prod if side is reac else reac
+            for k in list(other):
+                side[k] = side.get(k, 0) + other.pop(k) + 1
+        if any(prod.get(k, 0) != reac.get(k, 0) for k in ks) and (reac or prod):
             return reac, prod
 
 
@@ -560,7 +570,7 @@ def run(ctx):
     t0 = _t(ctx, "invariants", t0)
     # 2. all histories of the generation slice, replayed
     _spec_to_code(ctx, "gen_q" if ctx.quick else "gen_t", 5000 if ctx.quick else 150000, gen_actions,
-                  MODES if ctx.quick else ("frac", "frac-rmul", "sym", "frac", "sym-int", "mix", "frac-np"))
+                  MODES if ctx.quick else ("frac", "frac-rmul", "sym", "frac", "sym-int", "mix", "frac-np", "srat"))
     t0 = _t(ctx, "histories", t0)
     # 3. elimination for every pair of net coefficients in -6..6 \ {0}, species on one or both sides
     _spec_to_code(ctx, "elim", None, ["GenLoad", "GenEliminate"], ("frac", "sym", "mix"))
